@@ -16,7 +16,7 @@ import (
 
 var profile = gen.Profile{
 	MinSteps: 4, MaxSteps: 26, Limits: []int{1, 2, 3, 4},
-	PNote: 15, PGate: 85, PInvalid: 4, PUnknown: 10, PBatch: 55, MaxBatch: 6,
+	PNote: 0, PGate: 85, PInvalid: 4, PUnknown: 10, PBatch: 55, MaxBatch: 6,
 	PCancel: 12, PBurst: 35, PObey: 30, Builtins: true, Pins: true,
 	Outcomes:      []string{"ok", "ok", "err:-32000", "ctxerr"},
 	Chans:         []string{"direct", "pipe"},
@@ -32,7 +32,7 @@ func run(t *testing.T, sc sim.Scenario) engine.Verdict {
 func genDeadline(t *rapid.T) sim.Scenario { return gen.DeadlineScenario(t) }
 
 func runDeadline(t *testing.T, sc sim.Scenario) engine.Verdict {
-	v := oracle.RunServer(t, sc, []string{"C06/", "C01/reply-missing", "C01/handler-not-run", "C01/reply-mismatch", "C03/"}, func(f oracle.Facts) bool { return true })
+	v := oracle.RunServer(t, sc, []string{"C06/"}, func(f oracle.Facts) bool { return true })
 	v.Labels = append(v.Labels, "base-deadline")
 	return v
 }
